@@ -1,5 +1,5 @@
 """bloc command kernels (C19)."""
-from vxlib import Inst, FMT_STUBS, CONTAINER_STUBS
+from vxlib import Inst, FMT_STUBS, CONTAINER_STUBS, CTX_STUBS, CORE_TUS, EMPTY_DECL_UNWIND
 def instances():
     out = []
     for shape, o in (("N", 0), ("NA", 0), ("NAA", 0), ("ON", 0), ("ON", 1), ("ON", 3), ("ONA", 2), ("OON", 4), ("OONA", 5), ("ONA", 5)):
@@ -11,4 +11,21 @@ def instances():
                         unwind=10, timeout=600, bounds="program given as \"-\" (standard input) followed by arbitrary arguments (may look like options)", inputs="argument bytes"))
     out.append(Inst(id="c19.getcmd.dash.ONA", props=["C19"], harness="h_c19.cpp", entry="c19_getcmd", tus=["apps/main_options.cpp"], defs=['VX_ARGS="ONA"', "VX_DASH=1"],
                     unwind=10, timeout=600, bounds="shape ONA with the program given as \"-\" (standard input)", inputs="argument bytes, which option"))
+    RSTUBS = ["_ZN4bloc5Value15readableNumericB5cxx11ERd", "_ZN4bloc5Value17readableImaginaryB5cxx11ERNS_9ImaginaryE", "_ZN4bloc5Value15readableIntegerB5cxx11ERl"]
+    MT = [t for t in CORE_TUS if t != "blocc/executable.cpp"] + ["apps/main.cpp", "apps/main_options.cpp", "apps/read_file.cpp", "blocc/string_reader.cpp"]
+    for n in (0, 2, 3):
+        out.append(Inst(id="c19.main.args%d" % n, props=["C19", "C01"], harness="h_main.cpp", entry="c19_main", tus=MT, defs=["VX_NARG=%d" % n],
+                        stubs=FMT_STUBS + RSTUBS + CTX_STUBS[2:] + CONTAINER_STUBS + ["_ZN4bloc6Parser23createInteractiveParserERNS_7ContextERNS0_12StreamReaderE", "_ZN4bloc6Parser15parseExpressionEv"],
+                        noops=CTX_STUBS[:2] + ["_ZN4bloc13PluginManager7destroyEv"],      # teardown of the context at exit: empty bodies
+                        unwind=6, unwindset=EMPTY_DECL_UNWIND, timeout=2400, truncate_long=True, tier="thorough" if n == 2 else "experimental",
+                        bounds="bloc p.b + %d program arguments (fixed strings, one looks like an option); collaborators stubbed" % n,
+                        inputs="outcome of fopen, of compiling (ok / parse error / nothing), of running (ok / runtime error)"))
+    OT = CORE_TUS + ["apps/main_options.cpp", "apps/read_file.cpp"]
+    RET = {0: "nothing", 1: "boolean", 2: "integer", 3: "decimal", 4: "string", 6: "complex", 7: "table", 8: "null", 9: "typednull", 10: "bytes"}
+    for k, nm in RET.items():
+        out.append(Inst(id="c19.output.%s" % nm, props=["C19", "C01"], harness="h_output.cpp", entry="c19_output", tus=OT, defs=["VX_RET=%d" % k],
+                        stubs=FMT_STUBS + RSTUBS,
+                        unwind=26, unwindset=EMPTY_DECL_UNWIND, timeout=600, truncate_long=True,
+                        bounds="output() of apps/main.cpp on a context whose output stream is a fresh file; returned value of kind %s, every payload (strings up to 3 bytes); number rendering (to_string / %%.16g) cut: a fixed token per kind" % nm,
+                        inputs="payload of the returned value"))
     return out
